@@ -18,7 +18,7 @@ func init() {
 		Explanation: "(R1) decision table read off the CFG of defaultConfigHooks.GetClientAuth over (RequireClientCert, VerifyClient): (T,T)->RequireAndVerifyClientCert, (F,T)->VerifyClientCertIfGiven, (T,F)->RequestClientCert, (F,F)->NoClientCert, and SetServerConfig stores exactly that result into ClientAuth on every path that publishes a server context; " +
 			"(R2) verification is never silently off: every store of true into tls.Config.InsecureSkipVerify (outside the forked crypto) is control-dependent on cfg.InsecureSkip or on a non-nil custom VerifyPeerCertificate installed in the same function; " +
 			"(R3) CA provenance: both RootCAs and ClientCAs receive the pool returned by hooks.GetX509Pool(secret.Validation) and its error is returned; (R4) plaintext only via the inspector: in serverContextManager.Conn every return of something that is not a *TLSConn is control-dependent on not-a-TCP-conn, TLS disabled, or inspector mode with a first byte other than 0x16; " +
-			"(R5) selection order in GetConfigForClient: unready providers are skipped first, an SNI match returns inside the loop, the ALPN candidate is recorded only while none is recorded and used only after the loop, the default is the first ready provider and is used last. (R6) MatchedServerName returns true only behind a hit in the table of configured names, string equality, or a suffix test whose pattern provably starts with \".\" (prefix domain), after lower-casing. (R3, provenance) every non-nil pool GetX509Pool returns is created in the call and filled from the CA bytes obtained in the call (inline PEM or the file read now), or cached under a key derived from those bytes. (R7) in the update branch of AddOrUpdateListener no store to a stored-config field that NewTLSServerContextManager (transitively) reads is reachable after the call that rebuilds the manager. (R5, round 5) MatchedALPN tests are collected over the package functions reachable from GetConfigForClient: each is given ClientHelloInfo.SupportedProtos as a whole (possibly through parameters) and sits in exactly one loop, over providers; when the test lives in a helper the other R5 obligations are evaluated in helper form. (R8) lockset: sdsProvider.updateConfig/setCertificate/setValidation are called only with pemProvider.mutex held; sdsProvider.update is called only by those three.",
+			"(R5) selection order in GetConfigForClient: unready providers are skipped first, an SNI match returns inside the loop, the ALPN candidate is recorded only while none is recorded and used only after the loop, the default is the first ready provider and is used last. (R6) MatchedServerName returns true only behind a hit in the table of configured names, string equality, or a suffix test whose pattern provably starts with \".\" (prefix domain), after lower-casing. (R3, provenance) every non-nil pool GetX509Pool returns is created in the call and filled from the CA bytes obtained in the call (inline PEM or the file read now), or cached under a key derived from those bytes. (R7) in the update branch of AddOrUpdateListener no store to a stored-config field that NewTLSServerContextManager (transitively) reads is reachable after the call that rebuilds the manager. (R5, round 5) MatchedALPN tests are collected over the package functions reachable from GetConfigForClient: each is given ClientHelloInfo.SupportedProtos as a whole (possibly through parameters) and sits in exactly one loop, over providers; when the test lives in a helper the other R5 obligations are evaluated in helper form. (R8) lockset: sdsProvider.updateConfig/setCertificate/setValidation are called only with pemProvider.mutex held; sdsProvider.update is called only by those three. (R9) stores to tls.Config.ClientSessionCache in pkg/mtls are nil or the direct result of tls.NewLRUClientSessionCache.",
 		Run: runC13,
 	})
 }
@@ -37,6 +37,8 @@ func runC13(c *Ctx) {
 	defer c13ManagerFromUpdatedConfig(c)
 	c.Rule("C13.R8", "rebuilds of an SDS-backed TLS context are serialised: policy updates and secret pushes enter under the provider mutex", 5)
 	defer c13SdsUpdateSerialised(c, "pkg/mtls")
+	c.Rule("C13.R9", "TLS session resumption never crosses trust anchors: a client session cache is private to the config it is set on", 1)
+	defer c13SessionCachePrivate(c, "pkg/mtls")
 	c.NotDecided = append(c.NotDecided, "the handshake itself (forked crypto/tls, treated as reference)", "the trust matrix over concrete certificates", "MatchedServerName wildcard semantics on concrete names")
 
 	pkg := "pkg/mtls"
